@@ -162,6 +162,7 @@ func sEq(a, b sInt) bool  { return a.Cmp(b) == 0 }
 func sLt(a, b sInt) bool  { return a.Cmp(b) < 0 }
 func sLe(a, b sInt) bool  { return a.Cmp(b) <= 0 }
 func sIsZero(a sInt) bool { return a.Sign() == 0 }
+func sOdd(a sInt) bool    { return a.Bit(0) == 1 }
 func sIte(c bool, a, b sInt) sInt {
 	if c {
 		return a
@@ -191,3 +192,6 @@ func vWitness(id string, c bool) {}
 
 // vKnown registers the input predicate of a known finding (known_findings.json).
 func vKnown(id string, c bool) {}
+
+// vDump prints a term (development aid); native: no-op.
+func vDump(name string, x uint64) {}
